@@ -153,7 +153,7 @@ def _get_trials_tests(expr, *, flatten=False):
         tests  = None
 
     else:
-        ValueError('Could not interpret expression as bilinear form, linear form, or functional')
+        raise ValueError('Could not interpret expression as bilinear form, linear form, or functional')
 
     return trials, tests
 
